@@ -1,7 +1,7 @@
 SPECIFICATION Spec
 CONSTANTS
-  Programs <- Family3
-  QuerySeqs <- QS3
+  Programs <- FamilyNested
+  QuerySeqs <- QS2
   Permute = TRUE
   CheckOnTableHit = TRUE
   RepairFalseResult = TRUE
